@@ -36,7 +36,7 @@
   never a reply for a request id it did not issue                   C02_no_foreign_reply
   exactly one final reply as soon as the call cannot be routed      C02_unroutable_nomatch, C02_unroutable_refused,
                                                                     C02_unroutable_callee_full,
-                                                                    C02_unroutable_later_chunk
+                                                                    C02_later_chunk_callee_full
   … the callee has answered finally                                 C02_callee_final_yield (+ _payload),
                                                                     C02_callee_final_error
   … the callee's session has ended (also after a kill-mode cancel)  C02_callee_gone
@@ -44,6 +44,18 @@
   … router-handled timeout expired, no kill-mode cancel outstanding C02_timeout
   caller not reading (queue full): what happens instead             C02_full_retry, C02_full_giveup,
                                                                     C02_full_dropped_at_realm
+
+  END TO END (realm level, queues): how the realm hands the dealer's messages to the sessions' queues
+  (`Realm.applyD` / `Realm.deliver`; `dqueueOf r k` = the router→client queue of k, `dmsgsTo k sends` = the
+  messages of `sends` addressed to k, `qReplies req ms` = the replies to request `req` among `ms`).
+  dealer `sends` are delivered in order; a full queue drops that       C02_realm_delivery
+    message only; meta INVOCATIONs → `metaInvoke` tasks, aborts →
+    `leave … aborted` tasks
+  the handlers are `applyD` of the `sync*` functions                   C02_realm_handlers
+  callee's session ends (`Realm.leave`, not a shutdown): one ERROR     C02_realm_callee_gone
+    canceled appended to the caller's queue
+  call timer fires in `Realm.advance`: one ERROR timeout appended      C02_realm_timeout
+  … never in a tick that ends before the deadline                      C02_realm_timeout_not_before
 
   "keeps reading" is the hypothesis `env.full caller = false` where a RESULT is to be delivered by
   `syncYield` (the only place where the dealer itself looks at the caller's queue).  ERROR replies are
@@ -53,11 +65,13 @@
   confirmed on the real router, fixed in /repo and the model updated (so they hold now):
   * a later chunk of a pending progressive call whose procedure no longer resolved was answered
     ERROR no_such_procedure while the call stayed pending → second final reply later
-    (fix 63465ac; now `C02_unroutable_later_chunk`);
+    (fixes 63465ac, 0365a6a: a later chunk is now routed to the stored callee without matching its URI again,
+    so it can no longer be "unroutable"; if the callee's queue is full: `C02_later_chunk_callee_full`);
   * (C04) two callees under an unknown `invoke` policy string made `syncCall` panic (fix 5b7e81a).
 -/
 import Nexus.L2.Proofs.DealerReply
 import Nexus.L2.Proofs.DealerExamples
+import Nexus.L2.Proofs.DealerRealmRpc
 
 namespace Nexus.C02
 open Nexus.L2 Nexus.Gen.N Nexus
@@ -150,24 +164,19 @@ theorem C02_unroutable_nomatch {env : DEnv} {s : DState} (h : DealerInv s) (call
 
 example : Ex.sCall.d.matchProcedure "q" = none ∧ (⟨2, 9⟩ : ReqId) ∉ Ex.sCall.d.calls := by decide +kernel
 
-/-- A later chunk of a pending, not cancelled call names a procedure that does not resolve any more:
-    the call is ended — exactly one ERROR no_such_procedure, the call removed (and the callee
-    interrupted when possible). -/
-theorem C02_unroutable_later_chunk {env : DEnv} {s : DState} (h : DealerInv s) (c : ReqId) (opts : Dict)
-    (proc : String) (args : List WVal) (kw : Dict) (rnd : Nat) (hc : c ∈ s.d.calls)
-    (hm : s.d.matchProcedure proc = none) {v : Invk} (hv : v ∈ s.d.invs) (hvc : v.callId = c) (hcan : v.canceled = false) :
-    repliesFor c (syncCall env s c.sess c.req opts proc args kw rnd).sends = [callErr c [] ErrNoSuchProcedure [] []] ∧
-      c ∉ (syncCall env s c.sess c.req opts proc args kw rnd).st.d.calls := by
-  obtain ⟨i, v', hv', hvi, hvc', _, hb, hf, hsc⟩ := syncCancel_lookup (env := env) h hc
-  have : v' = v := nodup_map_inj h.call.invCalls hv' hv (hvc'.trans hvc.symm)
-  subst this
-  rw [syncCall_nomatch_pending c.sess c.req opts args kw rnd hm hb, hsc, if_neg (by simp [hcan]), cancelOut_eq]
-  have heta : (⟨c.sess, c.req⟩ : ReqId) = c := rfl
-  have hk : ¬ CancelModeKillNoWait = CancelModeKill := by decide
-  rw [heta]
-  split
-  · exact ⟨by simp [repliesFor_cons], by simp⟩
-  · exact ⟨by simp [repliesFor_cons], by simp⟩
+/-- A later chunk of a pending call whose callee has no room: the call is ended with exactly one ERROR
+    network_failure to the caller (the only message of the step) and removed. -/
+theorem C02_later_chunk_callee_full {env : DEnv} {s : DState} (h : DealerInv s) {v : Invk} (hv : v ∈ s.d.invs)
+    (opts : Dict) (proc : String) (args : List WVal) (kw : Dict) (rnd : Nat)
+    (hprog : (opts.optFlag OptProgress && !hasFeat env v.callId.sess RoleCaller FeatureProgCallInvocations) = false)
+    (hf : env.full v.callee = true) :
+    (syncCall env s v.callId.sess v.callId.req opts proc args kw rnd).sends =
+        [callErr v.callId [] ErrNetworkFailure [.str "<text>"] []] ∧
+      v.callId ∉ (syncCall env s v.callId.sess v.callId.req opts proc args kw rnd).st.d.calls := by
+  obtain ⟨_, hb, hfi⟩ := h.call.inv_call hv
+  rw [syncCall_later proc args kw rnd hprog hb hfi]
+  obtain ⟨h1, h2⟩ := laterChunk_full h opts args kw hb hfi hf
+  exact ⟨h1, by rw [h2]; simp⟩
 
 /-- The CALL is refused (callee lacks a feature the call needs, or `disclose_me` is not allowed):
     exactly one ERROR(CALL) with the refusal's URI to the caller, nothing sent to anybody else, the
@@ -330,5 +339,91 @@ theorem C02_full_dropped_at_realm (r : Realm) (k : SessKey) (m : Msg) (c : Sessi
     r.trySend ⟨k, m⟩ = r := by
   unfold Realm.trySend
   simp only [hk, if_false, hc, hfull, if_true]
+
+/-! ### end to end: the realm's queues -/
+
+/-- DELIVERY.  Applying a dealer action `o` (`Realm.applyD`):
+    * the queue of an attached client `k` becomes its old content followed by the messages of `o.sends` addressed
+      to `k`, in the order of `o.sends`, cut off where the capacity `c.cap` is reached — a message that meets a
+      full queue is dropped, nothing else is affected;
+    * INVOCATIONs addressed to the meta session become `metaInvoke` tasks (in order), then come the dealer's meta
+      events (`metaPub` tasks), then one `leave k aborted` task per aborted session;
+    * the dealer state is `o.st`. -/
+theorem C02_realm_delivery (r : Realm) (o : DOut) :
+    (∀ (k : SessKey) (c : Session), k ≠ metaKey → r.clients.find? (fun c => c.key == k) = some c →
+      (r.applyD o).dqueueOf k = r.dqueueOf k ++ (Realm.dmsgsTo k o.sends).take (c.cap - r.queueLen k)) ∧
+    (r.applyD o).tasks = r.tasks ++ o.sends.filterMap Realm.dmetaTask ++ o.metaPubs.map Task.metaPub ++
+      o.aborts.map (fun k => Task.leave k .aborted) ∧
+    (r.applyD o).ending = r.ending ++ o.aborts ∧
+    (r.applyD o).ds = o.st :=
+  ⟨fun _ _ hk hc => Realm.dapplyD_queueOf r o hk hc, Realm.dapplyD_tasks r o, Realm.dapplyD_ending r o, Realm.applyD_ds r o⟩
+
+/-- the RPC handlers of a session goroutine, the call timer and the retry turn are `applyD` of the `sync*`
+    functions (so `C02_realm_delivery` describes their observable effect) -/
+theorem C02_realm_handlers (r : Realm) (s : Session) (req : Nat) (opts : Dict) (proc : String) (args : List WVal)
+    (kw : Dict) (details : Dict) (err : String) (t : Timer) :
+    r.handleCall s req opts proc args kw = r.applyD (syncCall r.denv r.ds s.key req opts proc args kw r.rnd) ∧
+    r.handleError s req details err args kw = r.applyD (syncError r.ds s.key req details err args kw) ∧
+    ((Realm.cancelMode opts = CancelModeKillNoWait ∨ Realm.cancelMode opts = CancelModeKill ∨
+        Realm.cancelMode opts = CancelModeSkip) →
+      r.handleCancel s req opts = r.applyD (syncCancel r.denv r.ds s.key req (Realm.cancelMode opts) ErrCanceled [])) ∧
+    (∀ k, (r.handleYield s req opts args kw).dqueueOf k =
+      (r.applyD (syncYield r.denv r.ds s.key req opts args kw (opts.optFlag OptProgress) true)).dqueueOf k) ∧
+    r.timerDue t =
+      ({ r with ds := { r.ds with timers := r.ds.timers.filter (fun y => y.id != t.id) } } : Realm).applyD
+        (syncCancel r.denv { r.ds with timers := r.ds.timers.filter (fun y => y.id != t.id) } t.caller t.req
+          CancelModeKillNoWait ErrTimeout [.str "<text>"]) := by
+  refine ⟨rfl, rfl, Realm.handleCancel_known s req opts, ?_, rfl⟩
+  intro k
+  unfold Realm.handleYield
+  simp only
+  split <;> rfl
+
+/-- the three sends of a departing callee's `syncRemoveSession` reach a caller with room, in order -/
+example : (Realm.dmsgsTo 2 (syncRemoveSession Ex.env Ex.sKill 1).sends).map Msg.typeCode = [8] := by decide +kernel
+
+/-- CALLEE GONE, end to end.  Session `k` leaves (any `mode` but a realm shutdown).  For every call it was serving
+    (`v`, also one in the cancelled-kill state) whose caller is an attached client with room for the dealer's
+    messages: the caller's queue is extended by a list `app` containing exactly one reply for that request — ERROR
+    (CALL, req, wamp.error.canceled) — and the call is gone from the dealer. -/
+theorem C02_realm_callee_gone (r : Realm) (h : DealerInv r.ds) {k : SessKey} {s : Session} (mode : LeaveMode)
+    (hfind : r.clients.find? (fun c => c.key == k) = some s) (hmode : mode.isShutdown = false)
+    {v : Invk} (hv : v ∈ r.ds.d.invs) (hk : v.callee = k) {c : Session} (hcm : v.callId.sess ≠ metaKey)
+    (hc : r.clients.find? (fun c => c.key == v.callId.sess) = some c)
+    (hroom : (Realm.leaveSend r k mode).queueLen v.callId.sess +
+      (Realm.dmsgsTo v.callId.sess (syncRemoveSession (Realm.leaveSend r k mode).denv r.ds k).sends).length ≤ c.cap) :
+    ∃ app, (r.leave k mode).dqueueOf v.callId.sess = (Realm.leaveSend r k mode).dqueueOf v.callId.sess ++ app ∧
+      Realm.qReplies v.callId.req app = [.error tCALL v.callId.req [] ErrCanceled [.str "<text>"] []] ∧
+      v.callId ∉ (syncRemoveSession (Realm.leaveSend r k mode).denv r.ds k).st.d.calls :=
+  Realm.leave_callee_gone r h mode hfind hmode hv hk hcm hc hroom
+
+/-- TIMEOUT, end to end.  In `Realm.advance … target` the next due event is the timer `t` of a pending, not
+    cancelled call (so `t.deadline ≤ target`).  Then `advance` fires it with the clock at the deadline; the
+    caller's queue is extended, in order and as far as it has room, by the dealer's messages `app` for it (at most
+    two), among which there is exactly one reply for that request: ERROR(CALL, req, wamp.error.timeout); the call is
+    removed; and `advance` goes on from there. -/
+theorem C02_realm_timeout (r : Realm) (h : DealerInv r.ds) (fuel target : Nat) (t : Timer)
+    (hn : Realm.nextDue r target = some (.timer t)) {v : Invk} (hv : v ∈ r.ds.d.invs)
+    (hvc : v.callId = ⟨t.caller, t.req⟩) (hcan : v.canceled = false) {c : Session} (hcm : t.caller ≠ metaKey)
+    (hc : r.clients.find? (fun c => c.key == t.caller) = some c) :
+    t.deadline ≤ target ∧
+    Realm.advance (fuel + 1) r target =
+      Realm.advance fuel (Realm.drain Realm.taskFuel
+        (({ r with now := max r.now t.deadline } : Realm).timerDue t)) target ∧
+    ∃ app, (({ r with now := max r.now t.deadline } : Realm).timerDue t).dqueueOf t.caller =
+        r.dqueueOf t.caller ++ app.take (c.cap - r.queueLen t.caller) ∧
+      Realm.qReplies t.req app = [.error tCALL t.req [] ErrTimeout [.str "<text>"] []] ∧ app.length ≤ 2 ∧
+      (⟨t.caller, t.req⟩ : ReqId) ∉ (({ r with now := max r.now t.deadline } : Realm).timerDue t).ds.d.calls := by
+  refine ⟨(Realm.nextDue_timer hn).2.2.1, ?_, ?_⟩
+  · simp only [Realm.advance, hn]
+    rfl
+  · exact Realm.timerDue_queueOf ({ r with now := max r.now t.deadline } : Realm) h t hv hvc hcan hcm hc
+
+/-- … and never earlier: in a tick to a time before its deadline a timer does not fire. -/
+theorem C02_realm_timeout_not_before {target : Nat} {r r' : Realm} {evs : List (Realm × Realm.Due)}
+    (h : Realm.Adv target r evs r') (t : Timer) (hlt : target < t.deadline) : ∀ p ∈ evs, p.2 ≠ .timer t := by
+  intro p hp he
+  have := (h.fired p hp t he).2.2.1
+  omega
 
 end Nexus.C02
